@@ -19,6 +19,7 @@ pub enum X {
     Submit { node: usize, peer: usize, with_enr: bool },
     SessionLoss { at: usize, claimed_peer: usize },
     ReplayAtTime(ReplaySpec),
+    Restart { node: usize },
 }
 
 #[derive(Clone, Debug)]
@@ -31,7 +32,7 @@ pub struct ReplaySpec {
     variant: u32,
 }
 
-pub const BASES: usize = 7;
+pub const BASES: usize = 8;
 pub const ENUM_SPACE: u64 = (BASES * 8 * 14 * 3) as u64;
 
 pub fn run_enum(ctx: &mut Ctx) {
@@ -109,6 +110,16 @@ async fn run_async(ctx: &mut Ctx, enumerate: bool) {
             w.schedule(300, Ev::Custom(X::SessionLoss { at: 0, claimed_peer: 1 }));
             w.schedule(1400, Ev::Custom(X::Submit { node: 1, peer: 0, with_enr: true }));
         }
+        7 => {
+            // V accepts X's handshake (keys K1); X restarts and forgets; V's next request is challenged by X, so V
+            // re-keys as initiator (K2 current, K1 kept as previous keys); more requests of V follow
+            w.schedule(0, Ev::Custom(X::Submit { node: 1, peer: 0, with_enr: true }));
+            w.schedule(300, Ev::Custom(X::Restart { node: 1 }));
+            w.schedule(600, Ev::Custom(X::Submit { node: 0, peer: 1, with_enr: true }));
+            w.schedule(900, Ev::Custom(X::Submit { node: 0, peer: 1, with_enr: true }));
+            w.schedule(1500, Ev::Custom(X::Submit { node: 0, peer: 1, with_enr: true }));
+            w.schedule(2600, Ev::Custom(X::Submit { node: 0, peer: 1, with_enr: true }));
+        }
         _ => {
             w.schedule(0, Ev::Custom(X::Submit { node: 1, peer: 0, with_enr: false }));
             w.schedule(0, Ev::Custom(X::Submit { node: 0, peer: 1, with_enr: true }));
@@ -139,6 +150,7 @@ async fn run_async(ctx: &mut Ctx, enumerate: bool) {
     let mut idnonces: BTreeMap<(usize, [u8; 16]), usize> = BTreeMap::new();
     let mut injected = 0;
     let mut hs_per_request: BTreeMap<(usize, u64), u32> = BTreeMap::new();
+    let mut last_enc_key: BTreeMap<(usize, [u8; 32]), usize> = BTreeMap::new();
 
     loop {
         if ctx.failed() {
@@ -203,6 +215,36 @@ async fn run_async(ctx: &mut Ctx, enumerate: bool) {
                             chals.push(Chal { node: from, t: now_ms(), dst: rec.dst, dst_id: rec.dst_id, cd: d.authenticated_data.clone(), consumed: false, deadline: now_ms() + to });
                             if let Some(prev) = idnonces.insert((from, *id_nonce), wi) {
                                 ctx.fail("c03.id-nonce-repeated", format!("n{from} reused an id-nonce (datagrams #{prev} and #{wi})"), &[]);
+                            }
+                        }
+                        PacketKind::Message { .. } => {
+                            // (c) the key a node encrypts with moves back to that of an earlier handshake only because a
+                            // *message* under those keys arrived since the node re-keyed (that is how two sides that crossed
+                            // handshakes converge); a replayed handshake must not do it
+                            let first_tx = !w.wire[..wi].iter().any(|r| r.from == from && r.bytes == rec.bytes);
+                            if let (true, Some((ki, _))) = (first_tx, w.decrypt_with_log(d, &w.nodes[from].id)) {
+                                let remote = w.keylog[ki].1.remote.raw();
+                                let prev = last_enc_key.insert((from, remote), ki);
+                                if let Some(kj) = prev {
+                                    if ki < kj {
+                                        ctx.count("key_rotations_back_checked");
+                                        let t_rekey = w.keylog[kj].0;
+                                        let dk = w.keylog[ki].1.decryption_key;
+                                        let my_id = w.nodes[from].id;
+                                        let justified = w.inbound[from].iter().any(|r| {
+                                            r.t_ms >= t_rekey
+                                                && r.src == rec.dst
+                                                && toolkit::decode_packet(&my_id, &r.bytes).ok().map(|p| matches!(p.kind, PacketKind::Message { .. }) && toolkit::decrypt(&dk, p.message_nonce, &p.message, &p.authenticated_data).is_some()).unwrap_or(false)
+                                        });
+                                        if !justified {
+                                            ctx.fail(
+                                                "c03.session-rekeyed-without-handshake",
+                                                format!("n{from} went back to encrypting with the keys of an earlier handshake (key-log entry #{ki}, after #{kj}) although no message under those keys has reached it since it re-keyed at {t_rekey}ms"),
+                                                &[],
+                                            );
+                                        }
+                                    }
+                                }
                             }
                         }
                         PacketKind::Handshake { .. } => {
@@ -323,6 +365,11 @@ async fn run_async(ctx: &mut Ctx, enumerate: bool) {
                     ctx.ev(format!("t={} inject undecryptable MSG at n{at} as n{claimed_peer}", now_ms()));
                     let src = w.nodes[claimed_peer].addr;
                     w.deliver(at, src, bytes, Origin::Injected { tag: "undecryptable" });
+                }
+                X::Restart { node } => {
+                    ctx.fault("peer_restart");
+                    ctx.ev(format!("t={} RESTART n{node}", now_ms()));
+                    w.restart(node).await;
                 }
                 X::ReplayAtTime(s) => {
                     if inject_replay(ctx, &mut w, &s, &recorded, &mut hss, &mut chals, &mut wru_in) {
